@@ -266,10 +266,6 @@ package ge25519
 // Table lookup. NielsBaseMultiples[8*pos+j] is (j+1)*256^pos*B in packed form (y-x, y+x, 2xy) for
 // pos = 0 and (y-x, y+x, 2dxy) for pos > 0; these 256 facts are validated by the ground back end.
 //@ config !asm
-//@ func windowbEqual(b, c)
-//@   requires b < 1<<31 && c < 1<<31
-//@   ensures result == ite(b == c, 1, 0)
-
 //@ func scalarmultBaseChooseNiels(t, table, pos, b)
 //@   bind table = &NielsBaseMultiples
 //@   inline Expand, SwapConditional, Neg, moveConditionalBytes, windowbEqual
